@@ -5,7 +5,7 @@ Usage: /venv/bin/python selftest/run.py [--no-seeded]"""
 import json, os, subprocess, sys, time
 sys.path.insert(0, os.path.dirname(os.path.abspath(__file__)))
 from common import base_model, run_overlay, PROPERTIES, reformat  # noqa: E402
-from refactors import rename_locals, insert_noops, flip_comparisons, permute_methods, de_morgan, return_variable, swap_if_else  # noqa: E402
+from refactors import rename_locals, insert_noops, flip_comparisons, permute_methods, de_morgan, return_variable, swap_if_else, expand_augassign  # noqa: E402
 
 REFACTORS = [
     ("reformat every module through ast.unparse (layout, quotes, comments gone)", reformat),
@@ -16,8 +16,9 @@ REFACTORS = [
     ("De Morgan: not (a or b) -> (not a) and (not b), not (a and b) -> (not a) or (not b)", de_morgan),
     ("introduce a variable for every returned expression (t = e; return t)", return_variable),
     ("exchange the arms of every two-armed if / conditional expression under the negated test", swap_if_else),
-    ("rename + noops + flipped comparisons + De Morgan + return variables + permuted methods + exchanged arms combined",
-     lambda s: swap_if_else(permute_methods(return_variable(de_morgan(flip_comparisons(insert_noops(rename_locals(s)))))))),
+    ("spell every numeric increment of a name out (x += 1 -> x = x + 1)", expand_augassign),
+    ("rename + noops + flipped comparisons + De Morgan + return variables + permuted methods + exchanged arms + spelled-out increments combined",
+     lambda s: expand_augassign(swap_if_else(permute_methods(return_variable(de_morgan(flip_comparisons(insert_noops(rename_locals(s))))))))),
 ]
 
 
